@@ -196,11 +196,16 @@ mod verif_order {
         }
     }
 
-    /// sequential `bubble_sort` with a recording swap, arbitrary start sequence of N u32 values
-    /// (duplicates allowed; the real caller passes distinct target positions)
-    fn bubble_sort_contract<const N: usize, const S: usize>() {
+    /// sequential `bubble_sort` with a recording swap.  PERM = false: arbitrary start sequence of
+    /// N u32 values (duplicates allowed); PERM = true: start sequence restricted to permutations of
+    /// 0..N (what `set_var_order_common` passes when all levels are non-empty) -- cheaper for N = 5.
+    fn bubble_sort_contract<const N: usize, const S: usize, const PERM: bool>() {
         assert!(S == N * (N - 1) / 2);
         let start: [u32; N] = kani::any();
+        if PERM {
+            kani::assume(is_perm(&start));
+        }
+        kani::cover!(is_perm(&start), "start sequence can be a permutation of 0..N");
         let rec = Recorder::<N, S>::new(&start);
         let mut seq = start;
         let swap: SwapFn<'_, ()> = &|_m, i| rec.swap(i);
@@ -299,10 +304,11 @@ mod verif_order {
     harness!(sort_order_n4_m0, 8, sort_order_contract::<4, 0>());
     harness!(sort_order_n4_m1, 8, sort_order_contract::<4, 1>());
 
-    harness!(bubble_sort_n2, 4, bubble_sort_contract::<2, 1>());
-    harness!(bubble_sort_n3, 5, bubble_sort_contract::<3, 3>());
-    harness!(bubble_sort_n4, 8, bubble_sort_contract::<4, 6>());
-    harness!(bubble_sort_n5, 12, bubble_sort_contract::<5, 10>());
+    harness!(bubble_sort_n2, 4, bubble_sort_contract::<2, 1, false>());
+    harness!(bubble_sort_n3, 5, bubble_sort_contract::<3, 3, false>());
+    harness!(bubble_sort_n4, 8, bubble_sort_contract::<4, 6, false>());
+    harness!(bubble_sort_n5, 12, bubble_sort_contract::<5, 10, false>());
+    harness!(bubble_sort_n5_perm, 12, bubble_sort_contract::<5, 10, true>());
 
     // The contended slow paths of parking_lot (thread parking: thread-locals, futex, Instant) make
     // kani-compiler 0.68 crash (internal compiler error in kani-compiler/src/intrinsics.rs:243).
